@@ -352,6 +352,8 @@ func c09Gate(c *Ctx, r *Report, w, ev *ssa.Function) {
 	importRules(c, r, "C11", "C09.FROZEN", "resolution does not write into the selection sets, directive lists or fragments of the parsed request (the C11 effect summary restricted to those locations): a selection filtered out in place under one set of variable values is missing when the same parsed request is evaluated with other values",
 		"C11.PURE~Sels", "C11.PURE~Dirs", "C11.PURE~DirectiveUse", "C11.PURE~FragRef", "C11.PURE~Fragment", "C11.PURE~all other summarised writes")
 	c09Ctx(c, r)
+	r.rule("C09.KEYORERR", "every path through the field resolver stores the field's response key or appends a constructed error before it returns")
+	c09KeyOrError(c, r, c.anchors(), "C09.KEYORERR")
 }
 
 // c09Ctx: SetContextRecursive is the one documented way to touch a parsed request between parse and resolve.
@@ -704,4 +706,89 @@ func posOf(ci ssa.CallInstruction) token.Pos {
 		return token.NoPos
 	}
 	return ci.Pos()
+}
+
+// c09KeyOrError: the "if" direction: a selection the directives do not exclude appears in the response. Once
+// the walker has dispatched a field, the field resolver leaves a trace on every path: it stores the field's
+// key into the response map, or it reports an error (an append to its error list). A return reached with
+// neither drops a selected field silently - e.g. "nothing below it is selected, do not bother the resolver".
+func c09KeyOrError(c *Ctx, r *Report, a *Anchors, rule string) {
+	fn := a.field
+	if fn == nil {
+		r.undecided(rule, "anchor: field resolver", token.NoPos, "not found")
+		return
+	}
+	r.fnSeen(fnName(fn))
+	isEvent := func(in ssa.Instruction) bool {
+		switch t := in.(type) {
+		case *ssa.MapUpdate:
+			_, isP := t.Map.(*ssa.Parameter)
+			return isP && isStrIfaceMap(t.Map.Type())
+		case *ssa.Call:
+			if isBuiltinCall(t, "append") && isErrSlice(t.Type()) {
+				// appending a (possibly empty) callee result does not count: only a single constructed error does
+				if len(t.Call.Args) == 2 {
+					if _, ok := sliceLitElems(t.Call.Args[1]); ok {
+						return true
+					}
+				}
+				return false
+			}
+			// the error adder appends the resolver's error
+			if cal := t.Call.StaticCallee(); cal != nil && cal == a.addError {
+				return true
+			}
+		}
+		return false
+	}
+	n := 0
+	var witness *ssa.Return
+	seen := map[*ssa.BasicBlock]bool{}
+	var walk func(b *ssa.BasicBlock)
+	walk = func(b *ssa.BasicBlock) {
+		if witness != nil || seen[b] {
+			return
+		}
+		seen[b] = true
+		for _, in := range b.Instrs {
+			if isEvent(in) {
+				return
+			}
+			if rt, ok := in.(*ssa.Return); ok {
+				// returning a list of errors that was just tested to be non-empty is a report
+				nonEmpty := hasGuard(b, func(g guard) bool {
+					x, op, k, ok := intCmp(g.cond)
+					if !ok {
+						return false
+					}
+					inner, isLen := isLenOf(x)
+					if !isLen || !isErrSlice(inner.Type()) {
+						return false
+					}
+					if !g.val {
+						op = negOp(op)
+					}
+					return (op == token.GTR && k == 0) || (op == token.GEQ && k == 1) || (op == token.NEQ && k == 0)
+				})
+				if !nonEmpty {
+					witness = rt
+				}
+				return
+			}
+		}
+		for _, s := range b.Succs {
+			walk(s)
+		}
+	}
+	walk(fn.Blocks[0])
+	for range returnsOf(fn) {
+		n++
+	}
+	d, pos := "", fn.Pos()
+	if witness != nil {
+		pos = witness.Pos()
+		d = "the return at " + c.pos(witness.Pos()) + " is reached without a key having been stored in the response map and without an error: a field that no directive excludes vanishes from the response"
+	}
+	r.check(rule, fnName(fn)+": every return follows a store of the field's key or a reported error", pos, witness == nil, d)
+	r.floor(rule, "returns of the field resolver", n, 3)
 }
